@@ -1,0 +1,15 @@
+//go:build verif
+
+// Contracts for the deductive verifier in /verif (govc). Comment-only.
+
+package system
+
+// ---- resource_ledgers.go: filters on the ledgers listing (C38) --------------------------------------------------
+// The operator requires are the operator lists of the schema returned by ledgersResourceHandler.Schema (string fields:
+// queries.TypeString.Operators; numeric: TypeNumeric.Operators), i.e. what validateFilters lets through.
+
+//@ func (h ledgersResourceHandler) ResolveFilter(q common.ResourceQuery[ListLedgersQueryPayload], operator string, property string, value any) (s string, args []any, err error)
+//@   property C38
+//@   requires property == "name" ==> strOps(operator)
+//@   requires property == "bucket" ==> strOps(operator)
+//@   requires property == "id" ==> ordOps(operator)
